@@ -1868,11 +1868,11 @@ fn scalar_convert_to_comparable(depth: u8, jentry: &JEntry, value: &[u8], buf: &
             match header & CONTAINER_HEADER_TYPE_MASK {
                 ARRAY_CONTAINER_TAG => {
                     buf.push(ARRAY_LEVEL);
-                    array_convert_to_comparable(depth + 1, length, &value[4..], buf);
+                    array_convert_to_comparable(depth.saturating_add(1), length, &value[4..], buf);
                 }
                 OBJECT_CONTAINER_TAG => {
                     buf.push(OBJECT_LEVEL);
-                    object_convert_to_comparable(depth + 1, length, &value[4..], buf);
+                    object_convert_to_comparable(depth.saturating_add(1), length, &value[4..], buf);
                 }
                 _ => {}
             }
